@@ -643,6 +643,27 @@ def _sink_returns(stmts):
                 and len(stmts[-2].targets) == 1 and isinstance(stmts[-2].targets[0], ast.Name) and stmts[-2].targets[0].id == stmts[-1].value.id:
             stmts = stmts[:-2] + [ast.copy_location(ast.Return(value=stmts[-2].value), stmts[-2])]
             changed = True
+    # N24: `if C: [log] return True else: [log] return False` -> `[if C: log else: log]; return C` (C a boolean expression over plain locals and
+    # constant paths, so evaluating it a second time gives the same value; the branches hold nothing but expression statements)
+    if stmts and isinstance(stmts[-1], ast.If):
+        c = stmts[-1]
+        if c.body and c.orelse and all(isinstance(b[-1], ast.Return) and isinstance(b[-1].value, ast.Constant) and isinstance(b[-1].value.value, bool)
+                                       for b in (c.body, c.orelse)) \
+                and c.body[-1].value.value != c.orelse[-1].value.value and _is_boolish(c.test) \
+                and all(isinstance(x, ast.Expr) and isinstance(x.value, ast.Call) for b in (c.body, c.orelse) for x in b[:-1]):
+            rest_b, rest_o = c.body[:-1], c.orelse[:-1]
+            pure = not any(isinstance(x, (ast.Subscript, ast.Call, ast.NamedExpr, ast.Await, ast.Yield, ast.Attribute)) and not (isinstance(x, ast.Attribute) and _stable_path(x))
+                           for x in ast.walk(c.test))
+            if not rest_b and not rest_o or pure:
+                val = copy.deepcopy(c.test) if c.body[-1].value.value else (_negate(copy.deepcopy(c.test)) or ast.UnaryOp(op=ast.Not(), operand=copy.deepcopy(c.test)))
+                ret = ast.copy_location(ast.Return(value=val), c.body[-1])
+                ast.fix_missing_locations(ret)
+                pre = []
+                if rest_b or rest_o:
+                    c.body = rest_b or [ast.copy_location(ast.Pass(), c)]
+                    c.orelse = rest_o
+                    pre = [c]
+                stmts = stmts[:-1] + pre + [ret]
     return stmts
 
 
